@@ -88,7 +88,7 @@ class World:
         self.futures_before = leaks.count_futures(app)
         for _ in range(params.get("seq_prior", 0)):     # an application that has already handed out this many sequence numbers:
             app.get_sequence()                          # the message tags of the run straddle the wrap of the 8-bit sequence
-        for p in self.pkts:
+        for p in (self.pkts[:1] if params.get("sequential") else self.pkts):
             self._start(p)
         self.loop.settle()
         self._judge()
@@ -136,13 +136,13 @@ class World:
         """Which packet a request frame belongs to."""
         t = self.t
         def by(pred):
-            c = [p for p in self.pkts if p.task is not None and not p.task.done() and pred(p)]
+            c = [p for p in self.pkts if p.task is not None and (not p.task.done() or p.cancelled) and pred(p)]
             return c[0].idx if c else None
         if name == "sendUnicast":
             dest, tag = self._wire
             if dest is None:
                 return None
-            p = next((p for p in self.pkts if p.is_unicast and p.addr == dest and (p.tag in (None, tag)) and not p.task.done()), None)
+            p = next((p for p in self.pkts if p.is_unicast and p.addr == dest and (p.tag in (None, tag)) and p.task is not None and not p.task.done()), None)
             if p is not None:
                 p.tag = tag
                 return p.idx
@@ -188,11 +188,15 @@ class World:
             return
         # segment = frames after the previous send frame up to this one
         seg = []
-        for f in reversed(self.frames[:-1]):
+        late = []
+        for idx in range(len(self.frames) - 2, -1, -1):
+            f = self.frames[idx]
             if f[0].startswith("send"):
                 break
             seg.append(f)
-        foreign = [f for f in seg if f[1] is not None and f[1] != owner and not self.pkts[f[1]].cancelled]
+            if f[1] is not None and f[1] != owner and self.pkts[f[1]].cancelled and idx >= getattr(self.pkts[f[1]], "cancel_index", 1 << 30):
+                late.append(f)      # issued AFTER its request had been cancelled (a command that was already on the wire then is not)
+        foreign = [f for f in seg if f[1] is not None and f[1] != owner and not self.pkts[f[1]].cancelled] + late
         if foreign:
             self.viol.append(f"set-up frames of another request ({[f[0] for f in foreign]}) sit between this request's set-up and its {name}")
         if owner is not None:
@@ -304,7 +308,7 @@ class World:
             return []
         out = []
         L = self.left
-        live = [p for p in self.pkts if not p.task.done()]
+        live = [p for p in self.pkts if p.task is not None and not p.task.done()]
         if self.queue:
             name, args, owner, raw = self.queue[0]
             out.append((("answer", name, "ok"), 0))
@@ -426,6 +430,7 @@ class World:
             L["cancel"] -= 1
             p = self.pkts[label[1]]
             p.cancelled = True
+            p.cancel_index = len(self.frames)
             p.task.cancel()
             self.loop.settle()
             # a command of the cancelled request that is still queued at the NCP gets a plain answer later; drop ownership
@@ -459,7 +464,15 @@ class World:
         return None
 
     def _judge(self):
+        if self.p.get("sequential"):
+            # the next packet is handed to send_packet only when the previous call has ended
+            for i, p in enumerate(self.pkts):
+                if p.task is None and all(q.task is not None and q.task.done() for q in self.pkts[:i]):
+                    self._start(p)
+                    self.loop.settle()
         for p in self.pkts:
+            if p.task is None:
+                continue
             exp = self._expected(p)
             if p.task.done() and not getattr(p, "judged", False):
                 p.judged = True
@@ -491,7 +504,7 @@ class World:
 
     def _final(self):
         for p in self.pkts:
-            if not p.task.done():
+            if p.task is None or not p.task.done():
                 self.viol.append(f"{p.kind}: send_packet never finished")
         pend = getattr(self.app, "_pending", None)
         n = len(pend) if pend is not None and hasattr(pend, "__len__") else 0
@@ -581,12 +594,80 @@ def param_list(tier):
     return out
 
 
+def scripted_histories(rep, tier):
+    """Requests one after the other on the same application object, the earlier one FAILING: busy on every attempt (delivery error),
+    refused, confirmed as failed, or never confirmed (time-out).  The next, ordinary request is then answered busy once and accepted
+    on the retry, or busy on every attempt, or accepted at once: it is judged by the same reference as ever (nothing an earlier
+    request left behind may change it)."""
+    n = 0
+    nb = len(RETRY_DELAYS)
+    firsts = {"busy-out": [("answer", "busy")] * nb, "refused": [("answer", "refuse0")], "confirmed-failed": [("answer", "ok"), ("confirm", False)],
+              "never-confirmed": [("answer", "ok"), ("T",)]}
+    seconds = {"busy-then-accepted": [("answer", "busy"), ("answer", "ok"), ("confirm", True)], "busy-out": [("answer", "busy")] * nb,
+               "accepted": [("answer", "ok"), ("confirm", True)], "busy-then-own-confirmation": [("answer", "busy"), ("confirm-own-during-backoff",)] + [("answer", "busy")] * (nb - 1)}
+    versions = [4, 8, 13, 14] if tier == "quick" else ezspenv.VERSIONS
+    for v in versions:
+        for kinds in (("U", "U2"), ("U", "U"), ("S", "X")):
+            for busy in (0, 1, 2):
+                for fname, first in firsts.items():
+                    for sname, second in seconds.items():
+                        n += 1
+                        w = World({"version": v, "kinds": list(kinds), "sequential": True, "budget": {"busy": 4 * nb, "refuse": 2, "cfail": 2, "T": 3, "stale": 1}})
+                        bad = list(w.viol)
+                        script = list(first) + list(second)
+                        steps = 0
+                        while not w.done() and steps < 400:
+                            steps += 1
+                            en = [e[0] for e in w.enabled()]
+                            pick = 0
+                            if script:
+                                want = script[0]
+                                for i, lab in enumerate(en):
+                                    name = lab[0]
+                                    if want[0] == "answer" and name == "answer" and lab[1].startswith("send") and (
+                                            lab[2] == want[1] or (want[1] == "busy" and lab[2] == f"busy{busy}")):
+                                        pick = i
+                                        break
+                                    if want[0] == "confirm" and name == "confirm" and lab[2] is want[1]:
+                                        pick = i
+                                        break
+                                    if want[0] == "T" and name == "T" and w.awaiting_confirm() and not w.queue:
+                                        pick = i
+                                        break
+                                    if want[0] == "confirm-own-during-backoff" and name == want[0]:
+                                        pick = i
+                                        break
+                                else:
+                                    pick = 0
+                                lab = en[pick]
+                                matched = (want[0] == lab[0] and (want[0] != "answer" or lab[1].startswith("send"))) and not (want[0] == "answer" and pick == 0 and want[1] != "ok")
+                                if want[0] == "answer" and lab[0] == "answer" and lab[1].startswith("send") and pick == 0 and want[1] == "ok":
+                                    matched = True
+                                if matched:
+                                    script.pop(0)
+                            w.apply(pick)
+                            bad += w.viol
+                        if not w.done():
+                            bad.append("scripted history did not end")
+                        elif script and not bad:
+                            raise explore.InternalError(f"C12 harness: scripted history {fname} / {sname} (v{v}, {kinds}) could not be played: left {script}, "
+                                                        f"outcomes {[p.outcome for p in w.pkts]}")
+                        w.close()
+                        for m in bad[:2]:
+                            rep.add_violation(vkey("after an earlier request that failed: " + m), f"v{v} packets {list(kinds)} one after the other, first: {fname}, second: {sname} (busy status #{busy}): {m}",
+                                              {"world": "c12-history", "version": v, "kinds": list(kinds), "busy": busy, "first": fname, "second": sname})
+                        if busy and fname != "busy-out" and not sname.startswith("busy"):
+                            pass
+    return n
+
+
 def main(tier: str) -> int:
     rep = report.Report("C12", tier, "model_checking")
     k = 2 if tier == "quick" else 3
     st = explore.dbdfs(("mc.checks.c12", "build"), param_list(tier), k, budget_s=(75 if tier == "quick" else 1500))
     for v, params, choices, labels in st.violations:
         rep.add_violation(vkey(v), v, {"world": "c12", "params": params, "choices": choices})
+    n_hist = scripted_histories(rep, tier)
     if len(st.signatures) < 30:
         raise explore.InternalError(f"C12 vacuous: {len(st.signatures)} signatures")
     rep.coverage = {
@@ -602,6 +683,7 @@ def main(tier: str) -> int:
         "rule": "stateless deviation-bounded DFS (no state merging; 'states' = world states visited along all executions); concurrent packets of the listed kinds per version; "
                 "deviations: each busy / refusal enqueue status, failed / foreign-tag / foreign-destination / duplicate / unsolicited / early confirmation, silence to the 120 s timeout, "
                 "address-lookup miss, cancellation of either caller",
+        "scripted_history_runs": n_hist,
         "samples": st.samples[:3],
     }
     rep.assumptions = [
